@@ -155,6 +155,16 @@ func c08Gen(g *Gen) {
 		}
 	}
 
+	// ---- map literals inside (redundant) parentheses in the places where a brace starts a block: today the parser
+	// rejects them (skipped as unparseable); if it ever accepts them the printer must keep the parentheses
+	for _, m := range []string{"{\"a\" : 1}", "{}", "{\"a\" : 1, \"b\" : 2, \"c\" : 3}"} {
+		for _, f := range []string{"if (a == %s) {\nb\n}", "if t and (s == %s) {\nb\n}", "if f {\na\n} elif (%s) {\nb\n}",
+			"for [k, v] in (%s) {\nx.rec(k)\n}", "for (a in %s) {\nb\n}", "if x.rec((%s)) {\nb\n}", "for x.lim() and (%s == a) {\nb\n}",
+			"if (%s) {\nb\n}", "if not (%s) {\nb\n}", "if x.rec(%s) {\nb\n}", "if [%s] {\nb\n}"} {
+			emit("guard.map", fmt.Sprintf(f, m), true)
+		}
+	}
+
 	// ---- postfixes after multi-line containers; keywords that parse like prefix operators
 	for _, arg := range []string{"[1,2,3,4,5]", "[1,2,3,4]", "{\"a\":1,\"b\":2,\"c\":3}", "{\"a\":1}", "func () {\nreturn 1\n}", "1"} {
 		for _, f := range []string{"x := a(%s)[0]", "a(%s).b", "a(%s)(1)", "a[%s][0]", "a.b(%s)[0].c", "a(%s).b[0]", "a(1)[%s]", "x.rec(a(%s)[0], 2)",
